@@ -288,14 +288,16 @@ Proof.
   intros cur X. induction X as [|t1 X IH]; intros A t r n Ht H.
   - cbn [app List.length Nat.add]. eapply Ev_invoke; [apply (tc_rule_last A t Ht)|].
     unfold transcribe_seq. cbn [flat_map]. rewrite (transcribe_star Vargs [(Vargs, tts_bnd A); (Vlast, BTT t)] A eq_refl).
-    cbn [transcribe lookup var_beq Q app]. rewrite app_nil_r. exact H.
-  - cbn [app List.length]. destruct (X ++ [t]) as [|t2 X2] eqn:EX; [destruct X; discriminate EX|].
+    cbn [transcribe lookup var_beq Q app]. exact H.
+  - cbn [app List.length].
+    assert (EX : exists t2 X2, X ++ [t] = t2 :: X2) by (destruct X; cbn [app]; eauto).
+    destruct EX as [t2 [X2 EX]].
     replace (S (S (List.length X)) + n) with (S (S (List.length X) + n)) by lia.
-    eapply Ev_invoke; [apply tc_rule_more|].
+    eapply Ev_invoke; [rewrite EX; apply tc_rule_more|].
     unfold transcribe_seq. cbn [qstate app flat_map]. cbn [transcribe Q flat_map].
     rewrite (transcribe_star Vargs [(Vargs, tts_bnd A); (Vfirst, BTT t1); (Vrest, tts_bnd (t2 :: X2))] A eq_refl).
     rewrite (transcribe_star Vrest [(Vargs, tts_bnd A); (Vfirst, BTT t1); (Vrest, tts_bnd (t2 :: X2))] (t2 :: X2) eq_refl).
-    cbn [transcribe lookup var_beq app]. rewrite !app_nil_r. rewrite <- EX.
+    cbn [transcribe lookup var_beq app]. rewrite ?app_nil_r. rewrite <- EX.
     change (TPunct c_at :: TIdent id_trailingcomma :: TGroup DParen (A ++ [t1]) :: X ++ [t]) with (tc_in (A ++ [t1]) (X ++ [t])).
     apply IH; [exact Ht|]. rewrite <- app_assoc. exact H.
 Qed.
@@ -307,13 +309,15 @@ Proof.
   - cbn [app List.length Nat.add]. eapply Ev_invoke; [apply (tc_rule_comma A)|].
     unfold transcribe_seq. cbn [flat_map]. rewrite (transcribe_star Vargs [(Vargs, tts_bnd A)] A eq_refl). cbn [transcribe Q app].
     exact H.
-  - cbn [app List.length]. destruct (X ++ [TPunct c_comma]) as [|t2 X2] eqn:EX; [destruct X; discriminate EX|].
+  - cbn [app List.length].
+    assert (EX : exists t2 X2, X ++ [TPunct c_comma] = t2 :: X2) by (destruct X; cbn [app]; eauto).
+    destruct EX as [t2 [X2 EX]].
     replace (S (S (List.length X)) + n) with (S (S (List.length X) + n)) by lia.
-    eapply Ev_invoke; [apply tc_rule_more|].
+    eapply Ev_invoke; [rewrite EX; apply tc_rule_more|].
     unfold transcribe_seq. cbn [qstate app flat_map]. cbn [transcribe Q flat_map].
     rewrite (transcribe_star Vargs [(Vargs, tts_bnd A); (Vfirst, BTT t1); (Vrest, tts_bnd (t2 :: X2))] A eq_refl).
     rewrite (transcribe_star Vrest [(Vargs, tts_bnd A); (Vfirst, BTT t1); (Vrest, tts_bnd (t2 :: X2))] (t2 :: X2) eq_refl).
-    cbn [transcribe lookup var_beq app]. rewrite !app_nil_r. rewrite <- EX.
+    cbn [transcribe lookup var_beq app]. rewrite ?app_nil_r. rewrite <- EX.
     change (TPunct c_at :: TIdent id_trailingcomma :: TGroup DParen (A ++ [t1]) :: X ++ [TPunct c_comma]) with (tc_in (A ++ [t1]) (X ++ [TPunct c_comma])).
     apply IH. rewrite <- app_assoc. exact H.
 Qed.
@@ -377,41 +381,51 @@ Proof.
   - rewrite dot_join_cons2, HX. cbn [app]. eauto.
 Qed.
 
+Lemma match_group : forall d ps inner R,
+  match_pat (PGroup d ps) (TGroup d inner :: R) =
+  match seq_match match_pat ps inner with Some (e, []) => Some (e, R) | _ => None end.
+Proof. intros. cbn [match_pat]. replace (delim_beq d d) with true by (destruct d; reflexivity). reflexivity. Qed.
+
+Lemma key_alone : forall x segs, segs_ok segs ->
+  seq_match match_pat [keyP x] (dot_join segs) = Some ([(x, key_bnd segs)], []).
+Proof.
+  intros x segs [Hne Hall]. rewrite seq_match_cons. rewrite <- (app_nil_r (dot_join segs)).
+  rewrite (match_key x segs [] Hne Hall eq_refl eq_refl). reflexivity.
+Qed.
+
 Theorem tabhdr_first_match : forall r pt segs R, ident_frag_ok r = true -> segs_ok segs ->
   Forall (Forall (fun t => key_tok t = true)) segs -> rest_ok R = true ->
   first_match rules (top_in r pt (TGroup DBracket (dot_join segs) :: R)) = Some (BTabHeader, E_hdr r pt segs R).
 Proof.
-  intros r pt segs R Hr Hs Hk HR. destruct Hs as [Hne Hall].
+  intros r pt segs R Hr Hs Hk HR.
+  destruct (dot_join_not_group segs Hs Hk) as [t [X [HX Ht]]].
+  assert (G1 : match_pat (PGroup DBracket [PGroup DBracket [keyP Vpath]]) (TGroup DBracket (dot_join segs) :: R) = None).
+  { rewrite match_group, HX, seq_match_cons.
+    destruct t as [s|l|c|d g]; try discriminate Ht; reflexivity. }
+  assert (G2 : match_pat (PGroup DBracket [keyP Vpath]) (TGroup DBracket (dot_join segs) :: R) = Some ([(Vpath, key_bnd segs)], R)).
+  { rewrite match_group, (key_alone Vpath segs Hs). reflexivity. }
   rewrite rules_split4, rules_toplevel_eq. rewrite <- !app_assoc. rewrite first_match_app.
   cbn [first_match]. rewrite top_base_rule_nonempty.
   rewrite first_match_app. unfold top_kv_rules. rewrite (top_kv_rules_group top_tails r pt _ R HR).
   cbn [app first_match].
-  (* [[..]] rule: the inner token is not a group *)
   unfold rule_arrhdr at 1, match_rule at 1, match_seq. cbn [r_head].
   change (pstate id_toplevel ++ [rootP; V Voldpath; PGroup DBracket [PGroup DBracket [keyP Vpath]]; starP Vrest])
     with ((pstate id_toplevel ++ [rootP; V Voldpath]) ++ [PGroup DBracket [PGroup DBracket [keyP Vpath]]; starP Vrest]).
-  rewrite seq_match_app, (hdr_prefix r pt _ Hr).
-  destruct (dot_join_not_group segs (conj Hne Hall) Hk) as [t [X [HX Ht]]].
-  rewrite seq_match_cons. cbn [match_pat delim_beq]. rewrite HX at 1.
-  rewrite seq_match_cons.
-  assert (Hg : match_pat (PGroup DBracket [keyP Vpath]) (t :: X) = None).
-  { destruct t as [s|l|c|d g]; try discriminate Ht; reflexivity. }
-  rewrite Hg.
-  (* [..] rule *)
+  rewrite seq_match_app, (hdr_prefix r pt _ Hr). rewrite seq_match_cons, G1.
   unfold rule_tabhdr at 1, match_rule at 1, match_seq. cbn [r_head].
   change (pstate id_toplevel ++ [rootP; V Voldpath; PGroup DBracket [keyP Vpath]; starP Vrest])
     with ((pstate id_toplevel ++ [rootP; V Voldpath]) ++ [PGroup DBracket [keyP Vpath]; starP Vrest]).
-  rewrite seq_match_app, (hdr_prefix r pt _ Hr).
-  rewrite seq_match_cons. cbn [match_pat delim_beq].
-  rewrite seq_match_cons. rewrite <- (app_nil_r (dot_join segs)).
-  rewrite (match_key Vpath segs [] Hne Hall eq_refl eq_refl).
-  cbn [seq_match]. rewrite seq_match_cons, match_star. reflexivity.
+  rewrite seq_match_app, (hdr_prefix r pt _ Hr). rewrite seq_match_cons, G2.
+  rewrite seq_match_cons, match_star. reflexivity.
 Qed.
 
 Theorem arrhdr_first_match : forall r pt segs R, ident_frag_ok r = true -> segs_ok segs -> rest_ok R = true ->
   first_match rules (top_in r pt (TGroup DBracket [TGroup DBracket (dot_join segs)] :: R)) = Some (BArrHeader, E_hdr r pt segs R).
 Proof.
-  intros r pt segs R Hr Hs HR. destruct Hs as [Hne Hall].
+  intros r pt segs R Hr Hs HR.
+  assert (G : match_pat (PGroup DBracket [PGroup DBracket [keyP Vpath]]) (TGroup DBracket [TGroup DBracket (dot_join segs)] :: R)
+              = Some ([(Vpath, key_bnd segs)], R)).
+  { rewrite match_group, seq_match_cons, match_group, (key_alone Vpath segs Hs). reflexivity. }
   rewrite rules_split4, rules_toplevel_eq. rewrite <- !app_assoc. rewrite first_match_app.
   cbn [first_match]. rewrite top_base_rule_nonempty.
   rewrite first_match_app. unfold top_kv_rules. rewrite (top_kv_rules_group top_tails r pt _ R HR).
@@ -419,10 +433,6 @@ Proof.
   unfold rule_arrhdr at 1, match_rule at 1, match_seq. cbn [r_head].
   change (pstate id_toplevel ++ [rootP; V Voldpath; PGroup DBracket [PGroup DBracket [keyP Vpath]]; starP Vrest])
     with ((pstate id_toplevel ++ [rootP; V Voldpath]) ++ [PGroup DBracket [PGroup DBracket [keyP Vpath]]; starP Vrest]).
-  rewrite seq_match_app, (hdr_prefix r pt _ Hr).
-  rewrite seq_match_cons. cbn [match_pat delim_beq].
-  rewrite seq_match_cons. cbn [match_pat delim_beq].
-  rewrite seq_match_cons. rewrite <- (app_nil_r (dot_join segs)).
-  rewrite (match_key Vpath segs [] Hne Hall eq_refl eq_refl).
-  cbn [seq_match]. rewrite seq_match_cons, match_star. reflexivity.
+  rewrite seq_match_app, (hdr_prefix r pt _ Hr). rewrite seq_match_cons, G.
+  rewrite seq_match_cons, match_star. reflexivity.
 Qed.
